@@ -12,7 +12,8 @@ algorithm and yields a minimum cycle basis (`c14_sufficient`), in particular for
 order (`c14_sufficient_fvs`).
 
 NOT proved (`c14_sufficient_iso_partial`): the same for the isometric sub-collection (Amaldi et al.; it needs the
-mutual consistency of the lexicographic paths, C12's `c12_consistency_partial`); validated per run.
+mutual consistency of the lexicographic paths — now available as `C12.c12_consistency` — and the isometric-class
+theory on top of it); validated per run.
 -/
 namespace Parmcb.C14
 open Parmcb Parmcb.C01 Parmcb.C02
